@@ -644,6 +644,7 @@ func (ai *MinimaxAI) pvSearch(
 		te:    te,
 		pv:    pv,
 	}
+	mg.snapshotTE()
 
 	best := ai.stack[ply].pv[:0]
 	best = append(best, pv...)
@@ -793,6 +794,7 @@ func (ai *MinimaxAI) zwSearch(
 		te:    te,
 		pv:    pv,
 	}
+	mg.snapshotTE()
 
 	var i int
 
